@@ -110,15 +110,15 @@ PROPS = {
     ),
     "C06": dict(
         design_ref="DESIGN.md 5.6",
-        level_text="Coq theorems over the printer regenerated from ast.go and the writer, lexer and parser models. For all trees: the semicolon option is read only by the statement-terminator operation (output without semicolons = output with them of the same operations minus the terminators); indentation options made of blanks change only leading whitespace of lines (through cleanEmptyLines). ROUND TRIP (C06_pretty_round_trip, PrettyProofs.v): for every program of the grammar lexed from a source text and every pretty configuration that writes semicolons (any blank indent unit, with or without source map) the formatted output lexes and parses back, without error, to the tree it was printed from - the same tree as the compact output (C01_compact_round_trip) - provided no line of a multi-line literal ends with a blank (KF3). With semicolons off the clause is false (KF1, KF2: reported by the oracle). Byte-for-byte idempotence is explored by the oracle (re-formatting in every configuration).",
+        level_text="Coq theorems over the printer regenerated from ast.go and the writer, lexer and parser models. For all trees: the semicolon option is read only by the statement-terminator operation (output without semicolons = output with them of the same operations minus the terminators); indentation options made of blanks change only leading whitespace of lines (through cleanEmptyLines). ROUND TRIP (C06_pretty_round_trip, PrettyProofs.v): for every program of the grammar lexed from a source text and every pretty configuration that writes semicolons (any blank indent unit, with or without source map) the formatted output lexes and parses back, without error, to the tree it was printed from - the same tree as the compact output (C01_compact_round_trip) - provided no line of a multi-line literal ends with a blank (KF3). With semicolons off the clause is false (KF1, KF2: reported by the oracle). IDEMPOTENCE (C06_idempotent, TriviaProofs.v): under the same hypotheses, formatting the formatted output reproduces it byte for byte (a first attempt found the defect x;//<TAB>, repaired by fix 8063bcf).",
         level_note="Trusted: Coq kernel, translator xjs2v (WriteTo bodies), extraction, harness/driver correspondence (print suite over all option combinations). Modelled not verified: CodeWriter and cleanEmptyLines (strings.TrimSpace modelled on ASCII white space: exact on every reachable output since the lexer drops trailing Unicode white space of comments); the lexer, parser models for the round trip (differentially tested).",
         technique="Coq proof (simulation of two writer runs; structural invariant of the generated printer) + model/implementation correspondence",
         suites=[dict(suite="writer", n_quick=3000, n_thorough=100000, what="random histories of the exported CodeWriter methods: buffer, indent level, mappings", projection=WRITER_NOMAP),
                 dict(suite="print", n_quick=2000, n_thorough=50000, what="trees x compiler configurations: code",
                      projection=CODE_ONLY)],
         oracle_n_quick=600, oracle_n_thorough=20000, oracle_n_search=3000,
-        explanation="C06: C06_semi_only, C06_indent_only, C06_pretty_round_trip.",
-        open_statements=["C06_idempotent (formatting the formatted output reproduces it byte for byte): explored by the oracle; the proof attempt found the defect repaired by the fix of cleanEmptyLines (trailing whitespace-only comment at the end of the input)"],
+        explanation="C06: C06_semi_only, C06_indent_only, C06_pretty_round_trip, C06_idempotent.",
+        open_statements=["with semicolons off same-tree and idempotence are false on the unchanged tree (KF1, KF2): reported by the oracle"],
     ),
     "C16": dict(
         design_ref="DESIGN.md 5.16",
